@@ -35,9 +35,10 @@ uint8_t *w_alloc(size_t n, const char *name)
         size_t real = n ? n : 1;
         uint8_t *base;
 #ifdef W_SANITIZE
-        base = malloc(real);             /* exact size: red zone right after the last legal byte */
+        base = malloc(n);                /* exact size (possibly 0): red zone right after the last legal byte */
+        (void)real;
         if (!base) mcx_fatal("oom");
-        memset(base, 0, real);
+        if (n) memset(base, 0, n);
         blks[nblk] = (struct blk){base, base, n};
 #else
         size_t tot = ((real + 15) & ~(size_t)15) + 2 * CANARY;
@@ -808,6 +809,14 @@ static int do_service(void)
         if (want_stutter) pre = w_lib_hash();
         int was_ok = I.S->last_svc_ok;
         int evt_idle_pre = mon_evt_idle();
+        /* C03: in a shared buffer each half belongs to one machine; an idle machine's half must not change */
+        uint64_t half_c = 0, half_e = 0;
+        int cmd_idle_pre = mon_at_line_boundary();
+        int halves = W.shared && (W.mon & P_C03);
+        if (halves) {
+                half_c = mcx_hash_bytes(I.buf, (size_t)(W.buf_size / 2), 21).a;
+                half_e = mcx_hash_bytes(I.buf + W.buf_size / 2, (size_t)(W.buf_size - W.buf_size / 2), 22).a;
+        }
         api_enter();
         mon_service_begin();
         cat_status s = cat_service(I.obj);
@@ -836,6 +845,12 @@ static int do_service(void)
                 if (w_lib_hash() != pre)
                         VIOL(P_C12, "C12: a cat_service call in which io only refused (read refused %d, write refused %d) changed parser state",
                              L.reads_refused, L.writes_refused);
+        }
+        if (halves) {
+                if (evt_idle_pre && !L.handler_calls && mcx_hash_bytes(I.buf + W.buf_size / 2, (size_t)(W.buf_size - W.buf_size / 2), 22).a != half_e)
+                        VIOL(P_C03, "C03: the unsolicited half of the shared buffer changed although no event was pending");
+                if (cmd_idle_pre && !L.reads_delivered && mcx_hash_bytes(I.buf, (size_t)(W.buf_size / 2), 21).a != half_c)
+                        VIOL(P_C03, "C03: the command half of the shared buffer changed although no command line was in progress");
         }
         I.S->last_svc_ok = (status_known && s == CAT_STATUS_OK) ? 1 : 0;
         if (!status_known) I.S->last_svc_ok = 0;
